@@ -215,15 +215,31 @@ def jobs(tier):
             J('h_giveup_time', dll=dll, L=L, kind='p2p', fault='drop', windows=[1, 1])
             J('h_giveup_time', dll=dll, L=L, kind='p2p', fault='drop', windows=[255, 255])
         J(dll=dll, L=seg * 3 + 1, kind='p2p', fault='drop', windows=['sym', 'sym'])
+        if not q:
+            # both windows symbolic (1..255) for every fault kind and more sizes; mixed concrete windows; BAM give-up time
+            for npk in (2, 4, 5, 7):
+                for fault in ('drop', 'silentA', 'silentB'):
+                    J(dll=dll, L=seg * npk + 1, kind='p2p', fault=fault, windows=['sym', 'sym'], wall=3000)
+            for npk in (4, 6, 9):
+                for win in ((1, 255), (255, 1), (2, 3), (3, 2), (4, 5)):
+                    for fault in ('drop', 'silentA', 'silentB'):
+                        J(dll=dll, L=seg * npk - 2, kind='p2p', fault=fault, windows=list(win))
+            for npk in (2, 3, 5, 8, 12):
+                J('h_giveup_time', dll=dll, L=seg * npk - 1, kind='bam', fault='drop', windows=[1, 1])
+                J('h_giveup_time', dll=dll, L=seg * npk - 1, kind='p2p', fault='drop', windows=[2, 3])
+            for npk in (20, 40):
+                for fault in ('drop', 'silentA', 'silentB'):
+                    J(dll=dll, L=seg * npk - 3, kind='p2p', fault=fault, windows=[8, 16], wall=3000)
+                J(dll=dll, L=seg * npk - 3, kind='bam', fault='drop', windows=[1, 1], wall=3000)
     return out
 
 
 def meta(tier):
     return {
-        'bounds': ['transfer shapes: BAM and RTS/CTS on both data link layers, sizes giving ' + ('{2,3,5}' if tier == 'quick' else '2..12') + ' packets / segments, windows 1, 2, 3, all (and both windows symbolic for one size)',
+        'bounds': ['transfer shapes: BAM and RTS/CTS on both data link layers, sizes giving ' + ('{2,3,5}' if tier == 'quick' else '2..12') + ' packets / segments, windows 1, 2, 3, all (and both windows symbolic for ' + ('one size' if tier == 'quick' else '2, 3, 4, 5, 7 packets, all fault kinds; mixed windows; 20 and 40 packets') + ')',
                    'fault: index k of the lost bus frame, or index k from which originator / responder is silent: symbolic over all frames of the exchange (k beyond the last frame = fault-free run)',
                    'payload bytes symbolic; interleavings of deliveries and job passes per DESIGN 3',
                    'follow-up transfer on the same pair after 8 s, and (h_giveup_time) immediately after the bus has been silent for the timeout (1.25 s; 3 s on J1939-22) + 8 ms slack'],
-        'outside': ['more than one lost frame', 'sizes beyond 12 packets'],
+        'outside': ['more than one lost frame', 'sizes beyond ' + ('5' if tier == 'quick' else '12 packets (20 and 40 packets with windows 8 / 16 only)') + ' packets'],
         'assumptions': ['timestamps are macro times of the interleaving model (slack 5 ms + 2 ms)'],
     }
